@@ -327,6 +327,73 @@ func c12exec(c *h.Ctx, cs *h.Case) {
 					obs = c12dump(t)
 				}
 				check(ro, t, c12want{"nary", n, N, n, r, true}, "")
+			case len(tk) == 6 && tk[1] == "zroot":
+				// a root asked of a roster whose identities' deprecated ID field says nothing about them: unset (struct literals:
+				// mode 0; a roster read back from its TOML form: mode 1) or foreign (every entry carries its neighbour's id: mode 2).
+				// The root is looked up by its key (fix 08623bf): GenerateNaryTreeWithRoot roots the tree there, NewRosterWithRoot
+				// puts it first, a stranger gets neither.
+				mode, ok0 := atoi(tk[2])
+				n, ok1 := atoi(tk[3])
+				N, ok2 := atoi(tk[4])
+				if !ok0 || !ok1 || !ok2 || mode > 2 || n == 0 || n > 4096 {
+					return
+				}
+				var sis []*network.ServerIdentity
+				c12mu.Lock()
+				for i := 0; i < n; i++ {
+					b := c12si(i, i)
+					switch mode {
+					case 0:
+						sis = append(sis, &network.ServerIdentity{Public: b.Public, Address: b.Address})
+					case 1:
+						sis = append(sis, b)
+					default:
+						sis = append(sis, &network.ServerIdentity{Public: b.Public, Address: b.Address, ID: c12si((i+1)%n, (i+1)%n).ID})
+					}
+				}
+				stranger := c12si(n+1000, 0)
+				c12mu.Unlock()
+				ro := onet.NewRoster(sis)
+				if mode == 1 {
+					ro = ro.Toml(fix.Suite).Roster(fix.Suite)
+				}
+				r, member := -1, false
+				var root *network.ServerIdentity
+				if tk[5] == "x" {
+					root = &network.ServerIdentity{Public: stranger.Public, Address: stranger.Address}
+					if mode == 2 {
+						root.ID = ro.List[0].ID // a stranger that claims a member's id
+					}
+				} else {
+					r, member = atoi(tk[5])
+					if !member || r >= n {
+						return
+					}
+					root = ro.List[r]
+					if (n+N+r)%2 == 1 {
+						root = &network.ServerIdentity{Public: ro.List[r].Public.Clone(), Address: ro.List[r].Address, ID: ro.List[r].ID}
+					}
+				}
+				nr := ro.NewRosterWithRoot(root)
+				t := ro.GenerateNaryTreeWithRoot(N, root)
+				if !member {
+					if t != nil || nr != nil {
+						obs = "unexpected"
+						cs.Fail("nary-unexpected-tree", "a tree / a roster was produced for a root that is not in the roster (identities whose ID field is unset or foreign) — "+op)
+					} else {
+						obs = "none"
+					}
+					return
+				}
+				if t == nil {
+					obs = "none"
+				} else {
+					obs = c12dump(t)
+				}
+				if nr == nil || len(nr.List) != n || !nr.List[0].Public.Equal(ro.List[r].Public) {
+					cs.Fail("withroot-order", "NewRosterWithRoot(member "+strconv.Itoa(r)+") does not put that member first (identities whose ID field is unset or foreign) — "+op)
+				}
+				check(ro, t, c12want{"nary", n, N, n, r, true}, "")
 			case len(tk) == 5 && tk[1] == "narywr":
 				// ro.NewRosterWithRoot(root).GenerateNaryTree(N): the documented way to a tree whose root is the first entry of
 				// its roster.  A root that is not a member: no roster (and so no tree).  The root is an object of its own.
@@ -1110,6 +1177,17 @@ func c12gen(c *h.Ctx, yield func(*h.Case)) {
 			}
 		}
 		emit("identities without ID field", ops)
+	}
+	// --- … and a root asked of such a roster (every root, a stranger; ID field unset / lost in TOML / foreign) ----------
+	for n := 1; n <= c.Pick(9, 16); n++ {
+		var ops []string
+		for root := 0; root < n; root++ {
+			ops = append(ops, fmt.Sprintf("c12 zroot %d %d %d %d", (n+root)%3, n, 1+(n+root)%3, root))
+		}
+		for mode := 0; mode < 3; mode++ {
+			ops = append(ops, fmt.Sprintf("c12 zroot %d %d 2 x", mode, n))
+		}
+		emit("root lookup without ID field", ops)
 	}
 	// --- the roster by keys: root lookup by key (present, absent, nil), keys in any order ----------
 	for n := 1; n <= c.Pick(8, 14); n++ {
